@@ -242,6 +242,9 @@ def load_db(cfg, drivers=None, log=None):
             os.replace(pk + '.tmp', pk)
         except Exception:
             pass
+    # helpers no rule knows are transparent: their bodies are spliced into their callers' graphs (engine/inline.py)
+    from . import inline
+    db.n_inlined = inline.inline_helpers(db)
     if os.environ.get('VERIF_RENAME'):
         # development self-test: every parameter and local variable of the analysed program gets another name;
         # a rule whose verdict changes depends on an identifier it must not depend on
@@ -252,7 +255,8 @@ def load_db(cfg, drivers=None, log=None):
     _prune_cache(key)
     _DB_MEMO[memo] = db
     if log:
-        log('facts[%s]: %d TUs, %d functions, %d classes (%.1fs)' % (cfg, len(units), len(db.fns), len(db.classes), db.extract_s))
+        log('facts[%s]: %d TUs, %d functions, %d classes (%.1fs); %d call(s) of helpers unknown to the rules inlined %s'
+            % (cfg, len(units), len(db.fns), len(db.classes), db.extract_s, db.n_inlined, db.inlined_helpers[:12]))
     return db
 
 
